@@ -1,6 +1,7 @@
 package main
 
 import (
+	"sort"
 	"fmt"
 	"go/constant"
 	"go/token"
@@ -402,8 +403,15 @@ func constIntTerm(c *ssa.Const) string {
 // loopEnv: names visible in a loop invariant: parameters, phis (by source variable name)
 func (e *Eng) loopEnv(fr *Frame, h *ssa.BasicBlock, phis []*ssa.Phi, override map[*ssa.Phi]*Val) *Env {
 	env := e.funcEnv(fr)
-	// phis of enclosing headers first (dominators), then own
+	// phis of dominating headers first (farthest dominator first, so that the closest one wins), then own
+	var doms []*ssa.BasicBlock
 	for b := range fr.loopOrd {
+		if b != h && b.Dominates(h) {
+			doms = append(doms, b)
+		}
+	}
+	sort.Slice(doms, func(i, j int) bool { return domDepth(doms[i]) < domDepth(doms[j]) })
+	for _, b := range doms {
 		if b != h && b.Dominates(h) {
 			for _, ins := range b.Instrs {
 				if p, ok := ins.(*ssa.Phi); ok && p.Comment != "" {
@@ -1532,4 +1540,13 @@ func (fr *Frame) oldFor(cur *State) *State {
 		return cur.monOld
 	}
 	return fr.old
+}
+
+func domDepth(b *ssa.BasicBlock) int {
+	d := 0
+	for b.Idom() != nil {
+		b = b.Idom()
+		d++
+	}
+	return d
 }
